@@ -205,7 +205,7 @@ theorem onFieldBase_est (v : Visitor) (reg : List (String × Addr)) (chk0 : Ref 
     | field f' =>
       refine ⟨f', readField_of_read hr', fun x => by simpa [refsOf] using hrefs (by simpa [refsOf] using x), ?_⟩
       intro c hcm
-      have hm : c ∈ f.args := by simpa [kids] using hk c (by simpa [kids] using hcm)
+      have hm : c ∈ f.args := by simpa [kids] using hk.subset (by simpa [kids] using hcm)
       exact hest c (by rw [heq]; exact hm)
     | type _ => simp [SameHead] at hd
     | arg _ => simp [SameHead] at hd
